@@ -158,8 +158,17 @@ bool Units::UnitsImpl::isBaseUnitWithHistory(History &history, const UnitsConstP
     return (mUnits->unitCount() == 0) && standardUnitCheck;
 }
 
-bool Units::UnitsImpl::performTestWithHistory(History &history, const UnitsConstPtr &units, TestType type) const
+bool Units::UnitsImpl::performTestWithHistory(History &history, std::vector<const Units *> &unitsOnPath, const UnitsConstPtr &units, TestType type) const
 {
+    // Units that depend on themselves: a cycle that goes through an import
+    // cannot be resolved; a cycle made of local references only leaves nothing
+    // to resolve, but the units are not defined.
+    auto onPath = std::find(unitsOnPath.begin(), unitsOnPath.end(), mUnits);
+    if (onPath != unitsOnPath.end()) {
+        bool throughImport = std::any_of(onPath, unitsOnPath.end(), [](const Units *u) { return u->isImport(); });
+        return !throughImport && (type == TestType::RESOLVED);
+    }
+
     ModelPtr model;
     if (mUnits->isImport()) {
         model = mUnits->importSource()->model();
@@ -178,12 +187,18 @@ bool Units::UnitsImpl::performTestWithHistory(History &history, const UnitsConst
         }
 
         history.push_back(h);
+        unitsOnPath.push_back(mUnits);
+        bool result = importedUnits->pFunc()->performTestWithHistory(history, unitsOnPath, importedUnits, type);
+        unitsOnPath.pop_back();
 
-        return importedUnits->pFunc()->performTestWithHistory(history, importedUnits, type);
+        return result;
     }
 
+    unitsOnPath.push_back(mUnits);
+
+    bool result = true;
     model = std::dynamic_pointer_cast<libcellml::Model>(mUnits->parent());
-    for (size_t unitIndex = 0; unitIndex < mUnits->unitCount(); ++unitIndex) {
+    for (size_t unitIndex = 0; result && (unitIndex < mUnits->unitCount()); ++unitIndex) {
         std::string reference = mUnits->unitAttributeReference(unitIndex);
         if (isStandardUnitName(reference)) {
             continue;
@@ -192,18 +207,20 @@ bool Units::UnitsImpl::performTestWithHistory(History &history, const UnitsConst
         if (model != nullptr) {
             auto childUnits = model->units(reference);
             if (childUnits != nullptr) {
-                if (!childUnits->pFunc()->performTestWithHistory(history, childUnits, type)) {
-                    return false;
+                if (!childUnits->pFunc()->performTestWithHistory(history, unitsOnPath, childUnits, type)) {
+                    result = false;
                 }
             } else if (type == TestType::DEFINED) {
-                return false;
+                result = false;
             }
         } else if (type == TestType::DEFINED) {
-            return false;
+            result = false;
         }
     }
 
-    return true;
+    unitsOnPath.pop_back();
+
+    return result;
 }
 
 /**
@@ -743,13 +760,15 @@ UnitsPtr Units::clone() const
 bool Units::isDefined() const
 {
     History history;
-    return pFunc()->performTestWithHistory(history, shared_from_this(), TestType::DEFINED);
+    std::vector<const Units *> unitsOnPath;
+    return pFunc()->performTestWithHistory(history, unitsOnPath, shared_from_this(), TestType::DEFINED);
 }
 
 bool Units::doIsResolved() const
 {
     History history;
-    return pFunc()->performTestWithHistory(history, shared_from_this(), TestType::RESOLVED);
+    std::vector<const Units *> unitsOnPath;
+    return pFunc()->performTestWithHistory(history, unitsOnPath, shared_from_this(), TestType::RESOLVED);
 }
 
 } // namespace libcellml
